@@ -31,11 +31,11 @@ func typeOfAst(e ast.Expr) *progen.Type {
 }
 
 // catalogueCases writes the catalogue packages into mod/c and returns them as cases.
-func catalogueCases(mod string, only string, skip string, conc bool) []*caseT {
+func catalogueCases(mod string, only string, skip string, conc bool, genSeed uint64, gen int) []*caseT {
 	var cases []*caseT
 	items := catalog.Items()
 	if conc {
-		items = catalog.ConcItems()
+		items = append(catalog.ConcItems(), catalog.GenConcItems(genSeed, gen)...)
 	}
 	for _, it := range items {
 		if only != "" && !strings.Contains(it.ID, only) {
